@@ -34,6 +34,17 @@ def server_items(ck, count, seeds_per, salt=41, **kw):
     return items
 
 
+def contended_items(ck, count, seeds_per, salt=53):
+    rnd = random.Random(ck.seed * 1000003 + salt)
+    items, k = [], 100000
+    for sc in SB.contended_scenarios(rnd, count):
+        for j in range(seeds_per):
+            k += 1
+            items.append({'id': k, 'sc': sc, 'seed': rnd.randrange(1 << 30), 'strategy': ['random', 'pct'][j % 2],
+                          'exact': True})
+    return items
+
+
 def server_conformance(ck, name, items):
     out = ck.run_binder('servercore', items, timeout=1200)
     ck.evaluations += int(out.get('n_exec', 0))
@@ -92,7 +103,7 @@ def c06(ck, replay=None):
     mixes = 'NoBpOnly' if thorough else 'AllMixes'
     inv = ['TypeOK', 'CapacityInv', 'RejectClean', 'NoLostResponse', 'IdleEmpty']
     for cap in (1, 2):
-        ck.l1(f'ServerCore/sync cap={cap}', 'ServerCoreMC', core_cfg(R, cap, mixes, inv), may_skip=('Next', 'LoopSet', 'GatherMiss'))
+        ck.l1(f'ServerCore/sync cap={cap}', 'ServerCoreMC', core_cfg(R, cap, mixes, inv), may_skip=('Next', 'LoopSet', 'GatherMiss', 'CallerNoTimeLeft'))
     ck.l1('ServerCore/async cap=2', 'ServerCoreMC', core_cfg(3, 2, 'AllMixes', inv, asyn=True, guarded=False),
           may_skip=('Next', 'GatherSet', 'GatherMiss'))
     ck.l1('ServerCore/liveness', 'ServerCoreMC',
@@ -104,6 +115,8 @@ def c06(ck, replay=None):
                  core_cfg(3, 2, 'AllMixes', ['NoLostResponse'], ledger_first=False), 'invariant', 'NoLostResponse')
     server_conformance(ck, 'Server/AsyncServer capacity protocol under detsched',
                        server_items(ck, 250 if thorough else 50, 8 if thorough else 4))
+    server_conformance(ck, 'contended slots: short-timeout waiters woken while the server is full again (exact virtual time)',
+                       contended_items(ck, 60 if thorough else 16, 8 if thorough else 4))
     server_l2(ck, 'TLC behaviours steered into Server (capacity corners)', 3, 1, 150 if thorough else 30,
               ('Trap_WaiterWokenWhileFull', 'Trap_NotificationSwallowed', 'Trap_TimeoutWhileWaitingForSlot'))
     ck.assumptions += ['servlet tree abstracted to "result emerges after any delay, in any order" (ThreadServlet of harness '
@@ -117,7 +130,7 @@ def c07(ck, replay=None):
     R = 4 if thorough else 3
     mixes = 'NoBpOnly' if thorough else 'AllMixes'
     inv = ['GatherAlive', 'OwnResult', 'NoLostResponse']
-    ck.l1('ServerCore/sync abandon-safety', 'ServerCoreMC', core_cfg(R, 2, mixes, inv), may_skip=('Next', 'LoopSet', 'GatherMiss'))
+    ck.l1('ServerCore/sync abandon-safety', 'ServerCoreMC', core_cfg(R, 2, mixes, inv), may_skip=('Next', 'LoopSet', 'GatherMiss', 'CallerNoTimeLeft'))
     ck.l1('ServerCore/async abandon-safety', 'ServerCoreMC', core_cfg(3, 2, 'AllMixes', inv, asyn=True, guarded=False),
           may_skip=('Next', 'GatherSet', 'GatherMiss'))
     ck.l1('ServerCore/others-answered (liveness)', 'ServerCoreMC',
